@@ -15,6 +15,7 @@ first="$1"
 pk=""; for c in $crates; do pk="$pk -p $c"; done
 out="$d/confirm.txt"; : > "$out"
 # without the change: demo passes
+mkdir -p "$(dirname "$demo_path")"
 cp "$d/demo.rs" "$demo_path"
 if cargo test --offline -p "$first" $CONFIRM_FEATURES --test "$demo_name" >"$W/log0" 2>&1; then echo "demo_passes_without_change: yes" >>"$out"; else echo "demo_passes_without_change: NO" >>"$out"; tail -5 "$W/log0" >>"$out"; fi
 rm -f "$demo_path"
